@@ -431,3 +431,72 @@ def check_dispatch_passthrough(prog, rep, rule, pub, entry=None):
                         'the backend function must see the raster\'s own cells: here they pass through `%s` first' %
                         str(hits[0][1] if not isinstance(hits[0][1], tuple) else hits[0][1][-1]))
     return n
+
+
+def check_values_keep_dtype(prog, rep, rule, pub, entry=None):
+    """A caller's value parameter that is compared with raster cells - a nodata sentinel, a list of barrier / target /
+    excluded values, zone ids - reaches the kernels in its own dtype.  Squeezing it into the *raster's* dtype
+    (`np.asarray(values).astype(raster.dtype)`, `np.array(values, dtype=raster.data.dtype)`) makes a value the dtype cannot
+    hold wrap or truncate onto a legitimate cell value: -1 is 255 on uint8, -9999 is 241, 0.5 is 0, NaN is INT_MIN.
+    Decided on the wrapper terms of the public function (helpers evaluated in place): no cast term whose operand comes from a
+    non-raster parameter alone and whose dtype is `<raster parameter>[.data].dtype`.  One obligation per function."""
+    from .wterm import WT, walk as twalk, mentions, show as tshow
+    entry = entry or pub.name
+    w = WT(prog)
+    try:
+        ret = w.run(pub)
+    except Exception:      # noqa - the terms are best effort; no verdict without them
+        return 0
+    params = list(pub.params) + list(getattr(pub, 'kwonly', []))
+    terms = list(w.env.values()) + ([ret] if ret is not None else [])
+    for c in w.calls:
+        terms.extend(c.args)
+        kws = c.kwargs.items() if isinstance(c.kwargs, dict) else c.kwargs
+        terms.extend(v for _, v in kws)
+    for tgt, val, _g, _n in w.stores:
+        terms.extend([tgt, val])
+    rasters = set()
+    for t in terms:
+        for x in twalk(t):
+            if isinstance(x, tuple) and len(x) >= 2 and x[0] in ('data', 'coord') and isinstance(x[1], tuple) and x[1][:1] == ('param',):
+                rasters.add(x[1][1])
+            if isinstance(x, tuple) and len(x) == 3 and x[0] == 'attr' and isinstance(x[1], tuple) and x[1][:1] == ('param',) and \
+                    x[2] in ('dims', 'coords', 'attrs', 'shape', 'chunks'):
+                rasters.add(x[1][1])
+    if not rasters:
+        return 0
+    values = [p for p in params if p not in rasters]
+
+    def raster_dtype(d):
+        if not (isinstance(d, tuple) and len(d) == 3 and d[0] == 'attr' and d[2] == 'dtype'):
+            return None
+        r = d[1]
+        if isinstance(r, tuple) and r[0] == 'data':
+            r = r[1]
+        return r[1] if isinstance(r, tuple) and r[:1] == ('param',) and r[1] in rasters else None
+    bad = []
+    seen = set()
+    for t in terms:
+        for x in twalk(t):
+            if not isinstance(x, tuple) or not x:
+                continue
+            opnd = dt = None
+            if x[0] == 'cast' and len(x) == 3:
+                opnd, dt = x[1], x[2]
+            elif x[0] == 'call' and x[1] in ('numpy.array', 'numpy.asarray', 'numpy.asanyarray', 'numpy.ascontiguousarray') and len(x) >= 4 and x[2]:
+                kws = dict(x[3]) if not isinstance(x[3], dict) else x[3]
+                opnd, dt = x[2][0], kws.get('dtype', x[2][1] if len(x[2]) > 1 else None)
+            if opnd is None or dt is None:
+                continue
+            r = raster_dtype(dt)
+            if r is None or any(mentions(opnd, ('param', q)) for q in rasters):
+                continue
+            src = [v for v in values if mentions(opnd, ('param', v))]
+            if src and repr(x) not in seen:
+                seen.add(repr(x))
+                bad.append((src[0], r, tshow(x, 140)))
+    rep.add(rule, pub, entry, "the caller's value parameters reach the kernels in their own dtype", pub.node.lineno, not bad,
+            'a value parameter is cast to the dtype of the raster it is compared with: %s - a value that dtype cannot hold wraps or '
+            'truncates onto a legitimate cell value (-1 is 255 on uint8, 0.5 is 0, NaN is INT_MIN)'
+            % '; '.join('`%s` squeezed into `%s`.dtype (%s)' % b for b in bad[:2]), trivial=not values)
+    return 1
